@@ -8,7 +8,7 @@ from .skeletons import skeleton, U7, UN3, KINDS_SMALL
 from .mutate import mutate
 
 LEVEL = 'fault_enumeration'
-BUDGET_S = {'quick': 170, 'thorough': 1800}
+BUDGET_S = {'quick': 260, 'thorough': 1800}
 BOUNDS = {
     'quick': 'universe U7; skeleton set A; an OSError while the cache file is written (open, data, rename) after the root returned (cachewrite families); crash point symbolic: any statement boundary of the root function or of any '
              'nested function (before each statement / after the last), on history prefixes none, B, B.M (deleted / '
